@@ -71,10 +71,19 @@ IsInducedPath(G, S)  == S # {} /\ ConnectedOn(G, S) /\ (\A v \in S : DegIn(G, S,
                         /\ Cardinality({ e \in G.E : e \subseteq S }) = Cardinality(S) - 1
 NumInducedCycles(G, L) == Cardinality({ S \in SUBSET Verts(G.n) : Cardinality(S) = L /\ IsInducedCycle(G, S) })
 NumInducedPaths(G, L)  == Cardinality({ S \in SUBSET Verts(G.n) : Cardinality(S) = L + 1 /\ IsInducedPath(G, S) })     \* L = number of edges
-(* cycles as subgraphs: edge subsets that form one cycle = connected 2-regular subgraphs *)
-IsCycleEdgeSet(G, F) == F # {} /\ LET VS == UNION F IN
-                        (\A v \in VS : Cardinality({ e \in F : v \in e }) = 2) /\ ConnectedOn([n |-> G.n, E |-> F], VS)
-NumCycles(G, L)    == Cardinality({ F \in SUBSET G.E : Cardinality(F) = L /\ IsCycleEdgeSet(G, F) })
+(* cycles as subgraphs, counted through closed walks: CycWalks(G, s, cur, vis)[L+1] = the number of ways to extend the simple path
+   s ... cur (vertex set vis, all other vertices larger than s) to a cycle of length L through s; every cycle is found from its least
+   vertex in its two directions *)
+ZeroVec(n)         == [k \in 1..(n + 1) |-> 0]
+AddVec(a, b)       == [k \in 1..Len(a) |-> a[k] + b[k]]
+RECURSIVE CycWalks(_, _, _, _)
+CycWalks(G, s, cur, vis) ==
+    LET closes == IF Cardinality(vis) >= 3 /\ Adj(G, cur, s) THEN [ZeroVec(G.n) EXCEPT ![Cardinality(vis) + 1] = 1] ELSE ZeroVec(G.n)
+        nexts == { u \in Nbrs(G, cur) : u > s /\ u \notin vis } IN
+    FoldSet(LAMBDA u, acc : AddVec(acc, CycWalks(G, s, u, vis \cup {u})), closes, nexts)
+CycleVec(G)        == LET tot == FoldSet(LAMBDA s, acc : AddVec(acc, CycWalks(G, s, s, {s})), ZeroVec(G.n), Verts(G.n)) IN
+                      [k \in 1..(G.n + 1) |-> tot[k] \div 2]                 \* CycleVec(G)[L+1] = number of cycles of length L
+NumCycles(G, L)    == CycleVec(G)[L + 1]
 Girth(G)           == LET Ls == { L \in 3..G.n : NumInducedCycles(G, L) > 0 } IN IF Ls = {} THEN -1 ELSE Min(Ls)    \* a shortest cycle is induced
 (* ---- cut vertices and blocks ---- *)
 DelVertex(G, v)       == [n |-> G.n, E |-> { e \in G.E : v \notin e }]
